@@ -1283,6 +1283,51 @@ def e2e_public(ec):
     return dict(e2e=True, **{k: (list(v) if isinstance(v, (bytes, tuple)) else v) for k, v in ec.items()})
 
 
+def surrogate_half(ctx, res, failures):
+    """implementation only (the model's strings are Unicode text; a str holding half of a surrogate pair is not, yet
+    json round-trips it and the library's validator accepts it): records whose identifiers / data carry a lone high
+    surrogate go through the real sender, the wire and the real receiver and arrive unchanged"""
+    import copy
+    rng = ctx.rng
+    n = 0
+    msgs = [m for m in e2e_message_cases(ctx) if m["type"] == 0 and any(m[k] for k in ("completed", "halted", "updated"))][:6]
+    for i, c in enumerate(msgs):
+        c = copy.deepcopy(c)
+        for k in ("completed", "halted", "updated"):
+            for rec in c[k]:
+                rec[0] = rec[0] + "caf\u00e9 \ud83d"
+                if i % 2:
+                    rec[1] = "\ud83d" + rec[1]
+        akey, nn, mm = E2E_CONFIGS[i % len(E2E_CONFIGS)]
+        base = dict(akey=akey, n=nn, m=mm, trecv=3, nrecv=2048, fuel=8, qmax=0, pre=0, addr="10.9.9.9",
+                    draw=[rng.randrange(256) for _ in range(max(nn, 0))],
+                    msg={k: c[k] for k in ("urn", "key", "type", "flags", "completed", "halted", "updated")})
+        case = e2e_public(dict(base, spec=[], clock=[E2E_ACCEPTED], surrogate=True))
+        try:
+            data, objs, note = e2e_send(base)
+        except Exception as e:
+            failures.append(dict(signature="e2e:sender-raises:%s" % type(e).__name__, case=case, detail=None,
+                                     what="record with half of a surrogate pair in its identifiers: the real sender path raised "
+                                          "%s: %s" % (type(e).__name__, ascii(str(e))[:160])))
+            return n
+        if data is None:         # (a valid cipher configuration: the ValueError did not come from AES.new)
+            failures.append(dict(signature="e2e:sender-raises:ValueError", case=case, detail=None,
+                                 what="record with half of a surrogate pair in its identifiers: the real sender path gave up (%s); "
+                                      "the outgoing thread of the real component ends there" % note))
+            return n
+        base["nrecv"] = max(2048, len(data))
+        ec = dict(base, spec=[len(data)], clock=[E2E_ACCEPTED, E2E_ACCEPTED, E2E_ACCEPTED], surrogate=True)
+        r = e2e_receive(ec, data)
+        prem = e2e_premises(ec, data)
+        n += 1
+        res.note_case(("e2e-surrogate", i), True)
+        f = e2e_oracle(ec, data, objs, r, prem)
+        if f is not None:
+            failures.append(dict(f, case=e2e_public(ec), detail=None))
+            return n
+    return n
+
+
 def e2e(ctx, res):
     rng = ctx.rng
     im = impl()
@@ -1405,6 +1450,23 @@ def e2e_show(vec):
 def e2e_replay(case):
     ec = {k: v for k, v in case.items() if k != "e2e"}
     im = impl()
+    if ec.get("surrogate"):          # implementation only: half of a surrogate pair is outside the model's strings
+        try:
+            data, objs, note = e2e_send(ec)
+        except Exception as e:
+            print("FAILS: the real sender raised %s: %s" % (type(e).__name__, ascii(str(e))[:200]))
+            return 1
+        print("message :", ascii(json.dumps(ec["msg"]))[:1500])
+        if data is None:
+            print("FAILS: the real sender path gave up: %s" % note)
+            return 1
+        if not ec.get("spec"):
+            ec = dict(ec, nrecv=max(2048, len(data)), spec=[len(data)], clock=[E2E_ACCEPTED] * 3)
+        r = e2e_receive(ec, data)
+        fail = e2e_oracle(ec, data, objs, r, e2e_premises(ec, data))
+        print("FAILS: [%s] %s" % (fail["signature"], fail["what"]) if fail else
+              "records carrying a lone high surrogate arrive unchanged through sender, wire and receiver")
+        return 1 if fail else 0
     data, objs, note = e2e_send(ec)
     specs = [[im.spec_record(x) for x in lst] for lst in objs]
     print("message :", json.dumps(ec["msg"])[:2000])
@@ -1623,6 +1685,7 @@ def run(ctx, res):
     wf_cases(ctx, res)
     # end to end: real sender, any cut, real receiver vs send_receive in Coq
     failures += e2e(ctx, res)
+    res.extra["e2e_records_with_a_lone_surrogate"] = surrogate_half(ctx, res, failures)
 
     # failures: smallest first, shrunk
     failures.sort(key=lambda f: case_size(f["case"]))
